@@ -120,3 +120,11 @@ Proof.
   - clear. induction p; constructor; auto.
 Qed.
 
+Lemma hc_acq1 t k m s : can1 k m s = true -> hc t s = 0 -> hc t (acq1 t k m s) = 1.
+Proof.
+  unfold can1, acq1, hc. destruct s as [wr rd]. destruct (shared k m); cbn [writer readers]; intros C H.
+  - unfold no_writer in C. cbn [writer] in C. destruct wr; [discriminate|]. unfold writer_is in *. cbn [writer] in *.
+    rewrite count_cons_self. lia.
+  - unfold writer_is. cbn [writer count]. now rewrite Nat.eqb_refl.
+Qed.
+
